@@ -411,20 +411,34 @@ class WriteRead(e2.Case):
                     perm = "PermissionError"
                 masked_arr = None
                 masked_mode = None
+                second_arr = None
+                first_events = None
                 if got_masked is not None and got_masked != "IMAGE":
                     masked_arr = got_masked.asarray()
                     masked_mode = got_masked.mode.name
+                    # a HISTORY through the same PyramidIO: the blank tile just handed out is filled by its user (as the
+                    # samplers / tilers do), then ANOTHER missing tile is requested: it must be blank again
+                    masked_arr = masked_arr.copy() if hasattr(masked_arr, "copy") else masked_arr
+                    first_events = list(events)
+                    err["errno"] = 2
+                    wa = got_masked._as_writeable_array()
+                    if bch:
+                        wa[pr, pc, :] = 7
+                    else:
+                        wa[pr, pc] = 7
+                    second = pio.read_image(Pos(3, 6, 2), default="masked", masked_mode=buf.mode, format=fmt_arg)
+                    second_arr = second.asarray() if second is not None and second != "IMAGE" else None
         finally:
             tp.os = saved_os
             Image.save = saved_save
             tp.ImageLoader = saved_loader
         kinds = [e[0] for e in wrote if e[0] != "makedirs"]
         paths = [e[1] for e in wrote if e[0] != "makedirs"]
-        load_paths = [e[1] for e in events if e[0] == "load"]
+        load_paths = [e[1] for e in (first_events if first_events is not None else events) if e[0] == "load"]
         return dict(kinds=kinds, paths=paths, exists_after=exists_after, got_none=got_none, got_masked=got_masked,
                     bogus=bogus, nomode=nomode, perm=perm, masked_arr=masked_arr, masked_mode=masked_mode,
                     all_undefined=all_undefined, prior=prior_exists, prior_other=prior_other, other_after=other_after,
-                    load_paths=load_paths, exp_path=exp_path)
+                    load_paths=load_paths, exp_path=exp_path, second_arr=second_arr)
 
     def claims(self, w, outs):
         m = self.mode
@@ -459,6 +473,11 @@ class WriteRead(e2.Case):
             idx = (r, c) + ((w.int("ch", 0, bch - 1),) if bch else ())
             w.claim_eq("missing-reads-as-all-undefined", outs["masked_arr"].get(idx), undefined_elem(m), probe=("masked_arr", idx),
                        what="read_image(default='masked') of a missing tile must be all-undefined (%s)" % m)
+            if outs["second_arr"] is not None:
+                w.claim_eq("next-missing-tile-is-blank-again", outs["second_arr"].get(idx), undefined_elem(m), probe=("second_arr", idx),
+                           what="after the blank tile handed out for one missing position was filled, read_image(default='masked') of ANOTHER missing tile is not all-undefined (%s)" % m)
+            else:
+                w.claim("next-missing-tile-is-blank-again", False, probe=lambda ro, val: ro["second_arr"] is not None, what="second missing tile not handed out as a blank tile")
             w.claim("missing-reads-with-requested-mode", outs["masked_mode"] == ("RGBA" if m == "RGB" else m),
                     probe=lambda ro, val: ro["masked_mode"] == ("RGBA" if m == "RGB" else m))
 
